@@ -61,11 +61,59 @@ theorem firstBad_append_right_good {α} (p : α → Bool) (l r : List α) (hr : 
     · have hx' : p x = false := by simpa using hx
       simp [hx']
 
+theorem firstBad_none_iff {α} (p : α → Bool) (l : List α) : firstBad p l = none ↔ ∀ a ∈ l, p a = true := by
+  constructor
+  · intro h
+    induction l with
+    | nil => intro a ha; simp at ha
+    | cons x xs ih =>
+      have hx : p x = true := by
+        cases hp : p x with
+        | true => rfl
+        | false => simp [firstBad, hp, List.findIdx_cons] at h
+      have := firstBad_append_good p [x] xs (by simp [hx])
+      simp only [List.singleton_append] at this
+      rw [this] at h
+      have hxs : firstBad p xs = none := by cases hh : firstBad p xs <;> simp [hh] at h ⊢
+      intro a ha
+      rcases List.mem_cons.mp ha with rfl | ha
+      · exact hx
+      · exact ih hxs a ha
+  · exact firstBad_all_good p l
+
+/-- a list with an offending element splits at its FIRST offending element -/
+theorem exists_first_bad {α} (p : α → Bool) (l : List α) (h : ¬ ∀ a ∈ l, p a = true) :
+    ∃ good bad rest, l = good ++ bad :: rest ∧ (∀ a ∈ good, p a = true) ∧ p bad = false := by
+  induction l with
+  | nil => exact absurd (by simp) h
+  | cons x xs ih =>
+    cases hx : p x with
+    | false => exact ⟨[], x, xs, rfl, by simp, hx⟩
+    | true =>
+      have : ¬ ∀ a ∈ xs, p a = true := fun hall => h (fun a ha => by
+        rcases List.mem_cons.mp ha with rfl | ha
+        · exact hx
+        · exact hall a ha)
+      obtain ⟨g, b, r, rfl, hg, hb⟩ := ih this
+      exact ⟨x :: g, b, r, rfl, fun a ha => by
+        rcases List.mem_cons.mp ha with rfl | ha
+        · exact hx
+        · exact hg a ha, hb⟩
+
 /-! ### one chunk -/
 
 /-- an entry passes both tests the format applies -/
 def entryOK (marker : Nat) (checkPlus : Bool) (e : Entry) : Bool :=
   markerOK marker e && (!checkPlus || plusOK e)
+
+theorem firstBad_cons {α} (p : α → Bool) (x : α) (xs : List α) :
+    firstBad p (x :: xs) = if p x then (firstBad p xs).map (· + 1) else some 0 := by
+  have := firstBad_append_good p [x] xs
+  by_cases hx : p x = true
+  · simp only [hx, ↓reduceIte]
+    simpa using this (by simp [hx])
+  · have hx' : p x = false := by simpa using hx
+    simp [firstBad, hx', List.findIdx_cons]
 
 theorem validateChunk_good (n marker : Nat) (cp : Bool) (g : List Entry)
     (hg : ∀ e ∈ g, entryOK marker cp e = true) : validateChunk n marker cp g = none := by
@@ -74,11 +122,19 @@ theorem validateChunk_good (n marker : Nat) (cp : Bool) (g : List Entry)
     have := hg e he; unfold entryOK at this; simp at this; exact this.1
   rw [firstBad_all_good _ g hm]
   cases cp with
-  | false => simp
+  | false => simp [minLine]
   | true =>
     have hp : ∀ e ∈ g, plusOK e = true := fun e he => by
       have := hg e he; unfold entryOK at this; simp at this; exact this.2
-    simp [firstBad_all_good _ g hp]
+    simp [firstBad_all_good _ g hp, minLine]
+
+theorem minLine_some_left (a : Nat) (b : Option Nat) : minLine (some a) b ≠ none := by
+  cases b <;> simp [minLine]
+
+theorem minLine_shift (a b : Option Nat) (d : Nat) :
+    minLine (a.map (· + d)) (b.map (· + d)) = (minLine a b).map (· + d) := by
+  cases a <;> cases b <;> simp [minLine]
+  split <;> rfl
 
 /-- good entries in front shift the reported local line by their number of lines -/
 theorem validateChunk_shift (n marker : Nat) (cp : Bool) (g es : List Entry)
@@ -87,55 +143,79 @@ theorem validateChunk_shift (n marker : Nat) (cp : Bool) (g es : List Entry)
   have hm : ∀ e ∈ g, markerOK marker e = true := fun e he => by
     have := hg e he; unfold entryOK at this; simp at this; exact this.1
   unfold validateChunk
-  rw [firstBad_append_good _ g es hm]
-  cases h1 : firstBad (markerOK marker) es with
-  | some i => simp [Nat.add_mul]
-  | none =>
-    simp only [Option.map_none]
-    cases cp with
+  rw [firstBad_append_good _ g es hm, ← minLine_shift]
+  congr 1
+  · cases firstBad (markerOK marker) es <;> simp [Nat.add_mul]
+  · cases cp with
     | false => simp
     | true =>
       have hp : ∀ e ∈ g, plusOK e = true := fun e he => by
         have := hg e he; unfold entryOK at this; simp at this; exact this.2
       simp only [↓reduceIte]
       rw [firstBad_append_good _ g es hp]
-      cases h2 : firstBad plusOK es with
-      | some i => simp [Nat.add_mul]; omega
-      | none => simp
+      cases firstBad plusOK es <;> simp [Nat.add_mul]; omega
 
-/-- good entries behind the offending one do not change what is reported -/
-theorem validateChunk_right_good (n marker : Nat) (cp : Bool) (es r : List Entry)
-    (hr : ∀ e ∈ r, entryOK marker cp e = true) :
-    validateChunk n marker cp (es ++ r) = validateChunk n marker cp es := by
-  have hm : ∀ e ∈ r, markerOK marker e = true := fun e he => by
-    have := hr e he; unfold entryOK at this; simp at this; exact this.1
-  unfold validateChunk
-  rw [firstBad_append_right_good _ es r hm]
-  cases cp with
-  | false => rfl
-  | true =>
-    have hp : ∀ e ∈ r, plusOK e = true := fun e he => by
-      have := hr e he; unfold entryOK at this; simp at this; exact this.2
-    rw [firstBad_append_right_good _ es r hp]
+/-- **the first offending entry decides**: whatever follows it in the chunk (valid or not), the
+chunk is diagnosed at the line of its first offending entry. Needs `2 < n` when the `+` line is
+checked (FASTQ: n = 4), so that the `+` line of an entry precedes the header of the next. -/
+theorem validateChunk_first (n marker : Nat) (cp : Bool) (hn : cp = true → 2 < n) (bad : Entry) (o : Nat)
+    (hbad : validateChunk n marker cp [bad] = some o) (rest : List Entry) :
+    validateChunk n marker cp (bad :: rest) = some o := by
+  unfold validateChunk at hbad ⊢
+  simp only [firstBad_cons] at hbad ⊢
+  have hnil : ∀ p : Entry → Bool, firstBad p [] = none := fun p => by simp [firstBad]
+  simp only [hnil, Option.map_none] at hbad
+  by_cases hm : markerOK marker bad = true
+  · simp only [hm, ↓reduceIte, Option.map_none] at hbad ⊢
+    cases cp with
+    | false => simp [minLine] at hbad
+    | true =>
+      have h2 := hn rfl
+      simp only [↓reduceIte] at hbad ⊢
+      by_cases hp : plusOK bad = true
+      · simp [hp, minLine] at hbad
+      · have hp' : plusOK bad = false := by simpa using hp
+        simp only [hp', Bool.false_eq_true, ↓reduceIte, Option.map_some, minLine] at hbad ⊢
+        cases firstBad (markerOK marker) rest with
+        | none => simpa [minLine] using hbad
+        | some j =>
+          simp only [Option.map_some, minLine, Nat.zero_mul, Nat.zero_add] at hbad ⊢
+          have : 2 < (j + 1) * n := by rw [Nat.add_mul]; omega
+          simp only [this, ↓reduceIte]; exact hbad
+  · have hm' : markerOK marker bad = false := by simpa using hm
+    simp only [hm', Bool.false_eq_true, ↓reduceIte, Option.map_some, Nat.zero_mul] at hbad ⊢
+    cases cp with
+    | false => simpa [minLine] using hbad
+    | true =>
+      simp only [↓reduceIte] at hbad ⊢
+      by_cases hp : plusOK bad = true
+      · simp only [hp, ↓reduceIte, Option.map_none, minLine] at hbad
+        simp only [hp, ↓reduceIte]
+        have ho : o = 0 := by simpa using hbad.symm
+        cases firstBad plusOK rest <;> simp [minLine, ho]
+      · have hp' : plusOK bad = false := by simpa using hp
+        simp only [hp', Bool.false_eq_true, ↓reduceIte, Option.map_some, minLine] at hbad ⊢
+        exact hbad
 
 /-! ### every chunking reports the same, global, line -/
 
 /-- **C15.line_number_kline** — FASTA/FASTQ-style formats. Let the entries of the data be
-`good ++ bad :: rest` where every entry except `bad` is valid and `bad` alone is diagnosed at local
-line `o`. Then for EVERY way `cs` of cutting the entries into consecutive chunks (this is what
-every chunk size / mode produces, by C01), the read reports exactly line
-`(number of entries before bad)·n + o`, counted from the start of the data (`L = 0`). -/
-theorem line_number_kline (n marker : Nat) (cp : Bool) (bad : Entry) (o : Nat)
+`good ++ bad :: rest` where every entry of `good` is valid, `bad` alone is diagnosed at local line
+`o`, and `rest` is ARBITRARY (it may hold further violations of any class). Then for EVERY way `cs`
+of cutting the entries into consecutive chunks (this is what every chunk size / mode produces, by
+C01), the read reports exactly line `(number of entries before bad)·n + o`, counted from the start
+of the data (`L = 0`): the line of the FIRST offending record, independent of the chunking. -/
+theorem line_number_kline (n marker : Nat) (cp : Bool) (hn : cp = true → 2 < n) (bad : Entry) (o : Nat)
     (hbad : validateChunk n marker cp [bad] = some o) :
     ∀ (cs : List (List Entry)) (good rest : List Entry) (L : Nat),
       cs.flatten = good ++ bad :: rest →
-      (∀ e ∈ good, entryOK marker cp e = true) → (∀ e ∈ rest, entryOK marker cp e = true) →
+      (∀ e ∈ good, entryOK marker cp e = true) →
       reported n marker cp L cs = some (L + good.length * n + o) := by
   intro cs
   induction cs with
   | nil => intro good rest L h; simp at h
   | cons c cs ih =>
-    intro good rest L hflat hgood hrest
+    intro good rest L hflat hgood
     simp only [List.flatten_cons] at hflat
     rcases List.append_eq_append_iff.mp hflat with ⟨a', h1, h2⟩ | ⟨c', h1, h2⟩
     · -- c is a prefix of good: good = c ++ a'
@@ -143,7 +223,7 @@ theorem line_number_kline (n marker : Nat) (cp : Bool) (bad : Entry) (o : Nat)
       unfold reported
       rw [validateChunk_good n marker cp c hc]
       simp only
-      have := ih a' rest (L + c.length * n) h2 (fun e he => hgood e (by rw [h1]; simp [he])) hrest
+      have := ih a' rest (L + c.length * n) h2 (fun e he => hgood e (by rw [h1]; simp [he]))
       rw [this, h1]; simp [Nat.add_mul]; omega
     · -- c = good ++ c', c' ++ cs.flatten = bad :: rest
       cases c' with
@@ -155,34 +235,115 @@ theorem line_number_kline (n marker : Nat) (cp : Bool) (bad : Entry) (o : Nat)
         unfold reported
         rw [validateChunk_good n marker cp c hc]
         simp only
-        have := ih [] rest (L + c.length * n) (by simpa using h2.symm) (by simp) hrest
+        have := ih [] rest (L + c.length * n) (by simpa using h2.symm) (by simp)
         rw [this, h1]; simp
       | cons b r1 =>
         simp only [List.cons_append, List.cons.injEq] at h2
-        obtain ⟨hb, hr⟩ := h2
-        have hr1 : ∀ e ∈ r1, entryOK marker cp e = true := fun e he => hrest e (by rw [hr]; simp [he])
+        obtain ⟨hb, _⟩ := h2
         unfold reported
         rw [h1, validateChunk_shift n marker cp good (b :: r1) hgood]
         have : validateChunk n marker cp (b :: r1) = some o := by
-          rw [show b :: r1 = [b] ++ r1 from rfl, validateChunk_right_good n marker cp [b] r1 hr1, ← hb]
-          exact hbad
+          rw [← hb]; exact validateChunk_first n marker cp hn bad o hbad r1
         rw [this]; simp; omega
 
+/-- a read completes exactly when every entry is valid: a file with ANY violation never yields a
+table, whatever the chunking; a valid file never raises -/
+theorem reported_none_iff (n marker : Nat) (cp : Bool) :
+    ∀ (cs : List (List Entry)) (L : Nat),
+      reported n marker cp L cs = none ↔ ∀ e ∈ cs.flatten, entryOK marker cp e = true := by
+  intro cs
+  induction cs with
+  | nil => intro L; simp [reported]
+  | cons c cs ih =>
+    intro L
+    unfold reported
+    cases hv : validateChunk n marker cp c with
+    | some l =>
+      simp only [reduceCtorEq, List.flatten_cons, List.mem_append, false_iff]
+      intro hall
+      have := validateChunk_good n marker cp c (fun e he => hall e (Or.inl he))
+      rw [hv] at this; cases this
+    | none =>
+      simp only [ih, List.flatten_cons, List.mem_append]
+      constructor
+      · intro h e he
+        rcases he with he | he
+        · -- every entry of c is valid, else validateChunk would not be none
+          unfold validateChunk at hv
+          have hm : firstBad (markerOK marker) c = none := by
+            cases hfb : firstBad (markerOK marker) c with
+            | none => rfl
+            | some i => rw [hfb] at hv; exact absurd hv (minLine_some_left _ _)
+          have hmk := (firstBad_none_iff (markerOK marker) c).mp hm e he
+          cases cp with
+          | false => simp [entryOK, hmk]
+          | true =>
+            rw [hm] at hv
+            simp only [Option.map_none, ↓reduceIte, minLine] at hv
+            have hp : firstBad plusOK c = none := by
+              cases hfb : firstBad plusOK c with
+              | none => rfl
+              | some i => rw [hfb] at hv; simp at hv
+            have := (firstBad_none_iff plusOK c).mp hp e he
+            simp [entryOK, hmk, this]
+        · exact h e he
+      · intro h e he; exact h e (Or.inr he)
+
 /-- **C15.readValidate_line** — end to end over the C01 reader model: a FASTQ / two-line FASTA
-file whose entries are `good ++ bad :: rest` (single violation, diagnosed at local line `o`)
-is reported at line `good.length·n + o` for EVERY chunk size `k ≥ 1` and both reader modes. -/
-theorem readValidate_line (n : Nat) (hn : 0 < n) (marker : Nat) (cp : Bool) (mode : Mode) (file : Bytes)
+file whose entries are `good ++ bad :: rest` (`good` valid, `bad` the first offending record,
+diagnosed at local line `o`; `rest` arbitrary) is reported at line `good.length·n + o` for EVERY
+chunk size `k ≥ 1` and both reader modes. -/
+theorem readValidate_line (n : Nat) (hn : 0 < n) (marker : Nat) (cp : Bool) (hcp : cp = true → 2 < n)
+    (mode : Mode) (file : Bytes)
     (hwf : n ∣ countNL (norm file)) (k : Nat) (hk : 0 < k) (good rest : List Entry) (bad : Entry) (o : Nat)
     (hE : entriesK n (norm file) = good ++ bad :: rest)
-    (hgood : ∀ e ∈ good, entryOK marker cp e = true) (hrest : ∀ e ∈ rest, entryOK marker cp e = true)
+    (hgood : ∀ e ∈ good, entryOK marker cp e = true)
     (hbad : validateChunk n marker cp [bad] = some o) :
     readValidate n marker cp mode file k = some (good.length * n + o) := by
   unfold readValidate
   have hflat := entries_chunks_kLine n hn mode file hwf k hk
-  have := line_number_kline n marker cp bad o hbad
+  have := line_number_kline n marker cp hcp bad o hbad
     ((readAll (Fmt.kLine n) true mode file k).map (entriesOf n)) good rest 0
-    (by unfold entriesOf; rw [hflat, hE]) hgood hrest
+    (by unfold entriesOf; rw [hflat, hE]) hgood
   simpa using this
+
+/-- a valid file is read without error, and a file with any violation raises, for every chunk size -/
+theorem readValidate_none_iff (n : Nat) (hn : 0 < n) (marker : Nat) (cp : Bool) (mode : Mode) (file : Bytes)
+    (hwf : n ∣ countNL (norm file)) (k : Nat) (hk : 0 < k) :
+    readValidate n marker cp mode file k = none ↔ ∀ e ∈ entriesK n (norm file), entryOK marker cp e = true := by
+  unfold readValidate
+  rw [reported_none_iff]
+  have hflat := entries_chunks_kLine n hn mode file hwf k hk
+  unfold entriesOf
+  rw [hflat]
+
+/-- **C15.chunk_size_independent** — the outcome of reading a FASTA/FASTQ-style file (success, or the
+reported line) is the same for every two chunk sizes and reader modes, whatever the file contains
+(any number of violations of any class). -/
+theorem chunk_size_independent (n : Nat) (hn : 0 < n) (marker : Nat) (cp : Bool) (hcp : cp = true → 2 < n)
+    (file : Bytes) (hwf : n ∣ countNL (norm file)) (m₁ m₂ : Mode) (k₁ k₂ : Nat) (h₁ : 0 < k₁) (h₂ : 0 < k₂) :
+    readValidate n marker cp m₁ file k₁ = readValidate n marker cp m₂ file k₂ := by
+  by_cases hall : ∀ e ∈ entriesK n (norm file), entryOK marker cp e = true
+  · rw [(readValidate_none_iff n hn marker cp m₁ file hwf k₁ h₁).mpr hall,
+        (readValidate_none_iff n hn marker cp m₂ file hwf k₂ h₂).mpr hall]
+  · obtain ⟨good, bad, rest, hE, hgood, hb⟩ := exists_first_bad (entryOK marker cp) (entriesK n (norm file)) hall
+    obtain ⟨o, ho⟩ : ∃ o, validateChunk n marker cp [bad] = some o := by
+      cases hv : validateChunk n marker cp [bad] with
+      | some o => exact ⟨o, rfl⟩
+      | none =>
+        have := (reported_none_iff n marker cp [[bad]] 0).mp (by simp [reported, hv])
+        exact absurd (this bad (by simp)) (by simpa using hb)
+    rw [readValidate_line n hn marker cp hcp m₁ file hwf k₁ h₁ good rest bad o hE hgood ho,
+        readValidate_line n hn marker cp hcp m₂ file hwf k₂ h₂ good rest bad o hE hgood ho]
+
+/-- the code before the repair was chunk-size dependent: records `[bad '+', bad header]` in one
+chunk reported line 4, in two chunks line 2; the repaired rule reports 2 both ways -/
+theorem validateOld_chunk_dependent :
+    let e0 : Entry := [[64, 97], [65], [45], [73]]     -- @a / A / - / I   (third line is not '+')
+    let e1 : Entry := [[88, 98], [65], [43], [73]]     -- Xb / A / + / I   (header marker wrong)
+    reportedOld 4 64 true 0 [[e0, e1]] = some 4 ∧ reportedOld 4 64 true 0 [[e0], [e1]] = some 2 ∧
+    reported 4 64 true 0 [[e0, e1]] = some 2 ∧ reported 4 64 true 0 [[e0], [e1]] = some 2 := by
+  decide
 
 /-! ### delimited columns -/
 
